@@ -1043,3 +1043,7 @@ V("c20-twin-blockwise-grid-sensitivity-one-expression", "C20", "-", "dask_array/
   "        per_block = any(isinstance(v, (tuple, list)) for v in (self.operand(\"adjust_chunks\") or {}).values())\n        return type(self) is Blockwise and (not self.align_arrays or per_block)\n", twin=True)
 V("c04-map-overlap-not-grid-sensitive", "C04", "R04.12", "dask_array/_overlap.py",
   "        return len(self.arrays) > 1\n", "        return False\n", expect="MapOverlap")
+V("c04-chunks-override-not-grid-sensitive", "C04", "R04.12", "dask_array/_expr.py",
+  "    def _requires_grid_preservation(self, dependency):\n        # ``_chunks`` re-labels the input's blocks one to one\n        return True\n\n", "", expect="ChunksOverride")
+V("c04-reshape-lowered-not-grid-sensitive", "C04", "R04.12", "dask_array/manipulation/_reshape.py",
+  "    def _requires_grid_preservation(self, dependency):\n        # ``_outchunks`` was derived block for block from the input's grid\n        return True\n\n", "", expect="ReshapeLowered")
